@@ -101,6 +101,10 @@ fn positions() -> &'static Vec<Pos> {
             Pos { name: "key-label-pair", build: |n, m| { Item::Map(vec![(Item::Int(1), Item::Int(1)), (n, Item::Null), (m, Item::Null)]) }, recode: recode!(CoseKey), accepts: |i| m_key(i).is_ok(), unsigned: false, uninterpreted: false },
             Pos { name: "claim-key-pair", build: |n, m| { Item::Map(vec![(n, Item::Int(0)), (m, Item::Int(0))]) }, recode: recode!(ClaimsSet), accepts: |i| m_claims(i).is_ok(), unsigned: false, uninterpreted: false },
             Pos { name: "key-ops-pair", build: |n, m| { Item::Map(vec![(Item::Int(1), Item::Int(1)), (Item::Int(4), Item::Array(vec![n, m]))]) }, recode: recode!(CoseKey), accepts: |i| m_key(i).is_ok(), unsigned: false, uninterpreted: false },
+            // a label next to populated typed fields (typed labels and extra labels share one map)
+            Pos { name: "header-label-beside-typed-fields", build: |n, _m| Item::Map(vec![(Item::Int(1), Item::Int(-7)), (Item::Int(3), Item::Int(0)), (Item::Int(4), Item::Bytes(vec![1])), (n, Item::Null)]), recode: recode!(Header), accepts: |i| m_header(i, &mut MCtx::default()).is_ok(), unsigned: false, uninterpreted: false },
+            Pos { name: "key-label-beside-typed-fields", build: |n, _m| Item::Map(vec![(Item::Int(1), Item::Int(1)), (Item::Int(2), Item::Bytes(vec![1])), (Item::Int(3), Item::Int(-7)), (Item::Int(5), Item::Bytes(vec![2])), (n, Item::Null)]), recode: recode!(CoseKey), accepts: |i| m_key(i).is_ok(), unsigned: false, uninterpreted: false },
+            Pos { name: "protected-header-label-beside-typed-fields", build: |n, _m| Item::Array(vec![Item::Bytes(vec![]), Item::Map(vec![(Item::Int(7), Item::Array(vec![Item::Bytes(vec![]), Item::Map(vec![(Item::Int(1), Item::Int(-7)), (Item::Int(5), Item::Bytes(vec![3])), (n, Item::Null)]), Item::Bytes(vec![1])]))]), Item::Null, Item::Bytes(vec![])]), recode: recode!(coset::CoseSign1), accepts: |i| m_msg(Kind::Sign1, i, &mut MCtx::default()).is_ok(), unsigned: false, uninterpreted: false },
             // the same integer twice as labels of one map: out of range it is an out-of-range error (whatever else is wrong with the map), in range a duplicate
             Pos { name: "header-label-twice", build: |n, _m| { Item::Map(vec![(n.clone(), Item::Null), (n, Item::Null)]) }, recode: recode!(Header), accepts: |i| m_header(i, &mut MCtx::default()).is_ok(), unsigned: false, uninterpreted: false },
             Pos { name: "key-label-twice", build: |n, _m| { Item::Map(vec![(Item::Int(1), Item::Int(1)), (n.clone(), Item::Null), (n, Item::Null)]) }, recode: recode!(CoseKey), accepts: |i| m_key(i).is_ok(), unsigned: false, uninterpreted: false },
@@ -336,7 +340,7 @@ pub fn property() -> Property {
     Property {
         id: "C15",
         title: "Integers are decoded exactly or rejected as out of range, never wrapped",
-        rule: "integer n x interpreting position (45 positions (incl. map keys nested inside extra values, the same integer twice as labels of one map, positions inside counter-signature arrays, nested recipients, key sets, and pairs of adjacent integers in one map): labels, alg, kty, content type, crit / key_ops entries, claim keys, nonces, timestamps, key data length, registry labels, and uninterpreted extra values) \
+        rule: "integer n x interpreting position (48 positions (incl. labels beside populated typed fields, map keys nested inside extra values, the same integer twice as labels of one map, positions inside counter-signature arrays, nested recipients, key sets, and pairs of adjacent integers in one map): labels, alg, kty, content type, crit / key_ops entries, claim keys, nonces, timestamps, key data length, registry labels, and uninterpreted extra values) \
                x head width (every legal width and the bignum form); exhaustive over the boundary lattice (c-3..c+3 around 0, 23/24, 2^8, 2^16, 2^31, 2^32, 2^63, 2^64 of both signs), random elsewhere in [-2^64, 2^64-1]; \
                non-trivial = |n| >= 2^31 or n on the lattice; distinct by (position, n, width)",
         assumptions: &["oracle: out-of-range => the out-of-range error; in range => accepted iff the reference model accepts, and the re-encoding read by the strict reader holds exactly n"],
